@@ -78,8 +78,12 @@ def predicates(s, fs, pv, px, py, desc, strict=False):
         usable, unusable, pus = int(c[0]), int(c[1]), int(c[2])
         if unusable != truth_unusable or usable != len(s.files) - truth_unusable:
             return "Verify counts %d usable / %d unusable data files, the truth is %d / %d" % (usable, unusable, len(s.files) - truth_unusable, truth_unusable)
-        vols_present = sum(1 for v in s.volumes if v in fs and fs[v] == s.created[v])
-        if (strict or all(v not in fs or fs[v] == s.created[v] for v in s.volumes)) and pus != vols_present:
+        # intact = byte-identical to what Create wrote, except for bytes 12..15: the generator-version half of the version
+        # field is covered by no hash and interpreted by no reader (PAR 1.0), so a flip there leaves the volume intact
+        def vol_intact(x, y):
+            return len(x) == len(y) and x[:12] == y[:12] and x[16:] == y[16:]
+        vols_present = sum(1 for v in s.volumes if v in fs and vol_intact(fs[v], s.created[v]))
+        if (strict or all(v not in fs or vol_intact(fs[v], s.created[v]) for v in s.volumes)) and pus != vols_present:
             return "Verify counts %d usable parity volumes, %d are present and intact" % (pus, vols_present)
         if unusable <= pus and py["res"] == "ok" and px["res"] != "ok":
             return "%d unusable data files <= %d usable parity volumes but Repair failed with %s" % (unusable, pus, px["res"])
